@@ -19,3 +19,7 @@ import MicroHttp.Props.C10History
 #print axioms MicroHttp.C10.history_inv
 #print axioms MicroHttp.C10.reachable
 #print axioms MicroHttp.Tables.no_shared_state
+#print axioms MicroHttp.Tables.no_interior_mutability
+#print axioms MicroHttp.Tables.server_new
+#print axioms MicroHttp.Tables.server_new_from_fd
+#print axioms MicroHttp.Tables.client_new
